@@ -250,11 +250,15 @@ class FixpointH(_Arr):
         import os
         out = [{"rows": 1, "cols": 1}, {"rows": 2, "cols": 1}]
         if os.environ.get("PYVC_TIER") == "thorough":
-            out.append({"rows": 1, "cols": 2})
+            # one row, two columns: the coefficient pair is enumerated over a small set (symbolic coefficients make the
+            # obligations non-linear in two unknowns and the solver's answer load-dependent); bounds and constant stay symbolic
+            for a0 in (-3, -1, 0, 1, 2):
+                for a1 in (-3, -1, 0, 1, 2):
+                    out.append({"rows": 1, "cols": 2, "coef": [[a0, a1]]})
         return out
 
     def setup(self, c, case):
-        p, A, b, lo, hi = sym_polyhedron(c, case["rows"], case["cols"])
+        p, A, b, lo, hi = sym_polyhedron(c, case["rows"], case["cols"], coef=case.get("coef"))
         x = point(c, case["cols"], lo, hi)
         return {"p": p, "A": A, "b": b, "lo": lo, "hi": hi, "x": x}
 
